@@ -45,6 +45,10 @@ ASSUMPTIONS = [
     "'within the radius' is inclusive: an exact tie (d^2 == r^2 in exact rational arithmetic, every float operation of its evaluation exact) is expected REMOVED; near-but-not-exact ties |d - radius| < 1e-6 are out of domain (they cannot occur for generated cases: points, positions and radii are multiples of 1/8, so d^2 != r^2 implies |d - r| > 1e-4)",
     "clean_by_tomo_mask is judged only for lists with unique subtomo_id (removal is by id) and 0/1 masks",
     "survivor order is judged only for remove_out_of_bounds_particles; the other filters are judged as multisets of rows",
+    "float32-typed dimension tables are outside the quantifier (dimension tables are integer-valued; /repo compares python floats with np.float32 in float32 precision, so a position within float32 spacing below an upper face is removed): not generated, such calls are out of domain",
+    "x,y,z columns narrower than int64 make adapt_to_trimming raise under pandas 3 (exotic column dtype): not generated for trimming, such calls are out of domain; int32 positions are judged for the other three filters",
+    "tomogram-list FILES are read as float32 by ioutils.tlt_load: ids not exactly representable in float32 are passed as arrays/lists only",
+    "reference points are the documented columns x, y, z of the points table; any further columns (shift_x/y/z, all particle fields) do not move them",
 ]
 
 CLASSES = ["oob_center_faces", "oob_whole_odd", "oob_whole_even", "oob_upper_only", "oob_multi_tomo", "oob_far", "oob_single", "oob_shared_dims", "oob_block_sizes",
@@ -158,6 +162,9 @@ def _oob_app(A):
     if not O.geometry_finite(arr) or len(arr) < 1:
         return False
     b = O.half_box(A["boundary_type"], A["box_size"])
+    dd = A["dimensions"]
+    if getattr(dd, "dtype", None) == np.float32 or (hasattr(dd, "dtypes") and hasattr(dd, "columns") and any(t == np.float32 for t in dd.dtypes)):
+        return False                      # float32-typed dimension tables: outside the quantifier (lead's ruling, see ASSUMPTIONS)
     reg = _PRISTINE.get(id(A["dimensions"]))
     if reg is not None and reg[0] is A["dimensions"]:
         pd_ = (reg[1], reg[2])            # a table the driver re-uses: judged against the values it had when first handed over
@@ -230,7 +237,8 @@ def _trim_app(A):
         return False
     df = A["self"].df
     kinds = {df[c].dtype.kind for c in ("x", "y", "z")}
-    if not (kinds <= {"f"} or (kinds <= {"f", "i", "u"} and bool(np.all(s == np.round(s))))):
+    narrow = any(df[c].dtype.kind in "iu" and df[c].dtype.itemsize < 8 for c in ("x", "y", "z"))   # int32/int16 columns: reported, not judged
+    if narrow or not (kinds <= {"f"} or (kinds <= {"f", "i", "u"} and bool(np.all(s == np.round(s))))):
         return False                      # a fractional offset cannot be stored in integer columns (pandas 3 raises)
     keep, exp = O.trim_expected(arr, s, e)
     A["_c09"] = dict(arr=arr, s=s, e=e, keep=keep, exp=exp)
